@@ -888,11 +888,37 @@ func TestVerifProcessorTicker(t *testing.T) {
 				break wait
 			}
 		}
-		close(stopTraffic)
 		el := time.Since(started)
 		cancel()
 		<-runDone
-		fmt.Printf("VERIF-TICKER cleanup_ran=%v after=%.1fs limit=%.0fs\n", gone, el.Seconds(), limit.Seconds())
+		// second incarnation: the supervisor re-enters Run on the SAME Processor value after Run ended (aggregation state
+		// persists, a fresh tick source is needed): another due entry must be retried by it
+		again, el2 := false, time.Duration(0)
+		if gone {
+			p.state.vaaSignatures["due2"] = &vaaState{firstObserved: time.Now().Add(-10 * time.Minute), settled: true, ourMsg: []byte("probe2"), txHash: []byte{2},
+				ourVAA: &vaa.VAA{Version: 1, EmitterChain: 2, Sequence: 2, Payload: []byte{2}}, signatures: map[ethcommon.Address][]byte{}}
+			ctx2, cancel2 := context.WithCancel(sctx)
+			started2 := time.Now()
+			go func() { runDone <- p.Run(ctx2) }()
+			deadline2 := time.After(limit)
+		wait2:
+			for {
+				select {
+				case m := <-sendC:
+					if string(m) == "probe2" {
+						again = true
+						break wait2
+					}
+				case <-deadline2:
+					break wait2
+				}
+			}
+			el2 = time.Since(started2)
+			cancel2()
+			<-runDone
+		}
+		close(stopTraffic)
+		fmt.Printf("VERIF-TICKER cleanup_ran=%v after=%.1fs limit=%.0fs restarted_ran=%v after2=%.1fs\n", gone, el.Seconds(), limit.Seconds(), again, el2.Seconds())
 		supervisor.Signal(sctx, supervisor.SignalDone)
 		return nil
 	})
